@@ -1469,6 +1469,7 @@ def _run(ctx, lean_ok, tmp):
     mk = {'sbm': sc.sbm_spec, 'bpm': sc.bpm_spec, 'spm': sc.spm_spec}
     done = {}
     unsorted_done = {}
+    heat_on = {}
     cov = {}
     plan = sim_plan(ctx)
     mandatory = 9           # the first entries carry the coverage obligations
@@ -1518,6 +1519,9 @@ def _run(ctx, lean_ok, tmp):
             ctx.sample({'simulation': kind, 'kind': spec['kind'], 'rows': int(len(rec[ARRAYS[kind][0]])),
                         'state vector': int(np.shape(rec[ARRAYS[kind][1]])[1]), 'particles': len(rec['particles'])})
         reached = check_sim(ctx, job, cdir, kind, m, spec, tag)
+        if kind != 'sbm' and 'reload' in reached and any(k > 0. for k in np.ravel(rec['K_T0'])):
+            heat_on[kind] = heat_on.get(kind, 0) + 1
+            ctx.count('%s simulation with K_T0 > 0 (particle released off the ambient temperature)' % kind)
         hc = harness_chem(rec['particles'])
         if kind != 'sbm' and len(hc) >= 2 and hc != sorted(hc) and 'load' in reached:
             unsorted_done[kind] = unsorted_done.get(kind, 0) + 1
@@ -1539,6 +1543,9 @@ def _run(ctx, lean_ok, tmp):
     for kind in ('bpm', 'spm'):
         ctx.oblige('floor: %s simulations whose soluble composition is NOT alphabetically sorted were saved and reloaded (%d)'
                    % (kind, unsorted_done.get(kind, 0)), unsorted_done.get(kind, 0) >= 1, '')
+    for kind in ('bpm', 'spm'):
+        ctx.oblige('floor: %s simulations whose particles keep heat transfer on (K_T0 > 0, released warmer/colder than the water) went '
+                   'through save -> load -> re-save -> re-load (%d)' % (kind, heat_on.get(kind, 0)), heat_on.get(kind, 0) >= 1, '')
     # coverage matrix: model x particle kind, all the way to the second reload (recorded defects on the way are bypassed)
     need = [('sbm', 'soluble'), ('sbm', 'inert'), ('bpm', 'soluble'), ('bpm', 'inert'), ('bpm', 'mixed'), ('bpm', 'tracked'),
             ('spm', 'soluble'), ('spm', 'inert'), ('spm', 'mixed')]
